@@ -39,7 +39,14 @@ class RemoveUnusedImports(SimpleCodemod):
         tree.visit(gather_unused_visitor)
         # filter the gathered imports by line excludes/includes
         filtered_unused_imports = set()
-        for import_alias, importt in gather_unused_visitor.unused_imports:
+        # in source order: the visitor collects them in a set
+        def source_position(unused):
+            start = self.get_metadata(PositionProvider, unused[0]).start
+            return (start.line, start.column)
+
+        for import_alias, importt in sorted(
+            gather_unused_visitor.unused_imports, key=source_position
+        ):
             pos = self.get_metadata(PositionProvider, import_alias)
             if self.filter_by_path_includes_or_excludes(pos):
                 if not is_disabled_by_annotations(
